@@ -356,53 +356,44 @@ def trackOK (S : StrFns) (L : List Mapper) (n : String) : Bool :=
   | .key s => s == nk S L n
   | _ => false
 
-/-- no *other* nested field's entry has been re-keyed onto the name `n` -/
-def noCross (S : StrFns) (L : List Mapper) (full : List Fld) (n : String) : Bool :=
-  (lookupR (.nest n) (shapeFields S L full)).isNone || (nk S L n == n)
+/-- equality of two field entries that are not dicts -/
+def mvFlatEq : MV → MV → Bool
+  | .key a, .key b => a == b
+  | .dns, .dns => true
+  | _, _ => false
 
-def keyFlat (S : StrFns) (L : List Mapper) (n : String) : Bool :=
-  match keyOf S L n with
-  | .sub _ => false
-  | _ => true
-
-mutual
-/-- the shape list of `L` over `fs` has pairwise distinct keys at every depth and no dict as a field's
-    value: it equals itself as a Python dict, at every depth -/
-def selfFs (S : StrFns) (L : List Mapper) : List Fld → Bool
-  | [] => true
-  | f :: fs => selfF S L f && selfFs S L fs
-termination_by structural fs => fs
-def selfF (S : StrFns) (L : List Mapper) : Fld → Bool
-  | .scalar n _ => keyFlat S L n
-  | .nested n _ _ ci fs =>
-    keyFlat S L n && prefixOK S fs [] (ci.desL ++ thru n L)
-      && mkeysNodup (shapeFields S (ci.desL ++ thru n L) fs) && selfFs S (ci.desL ++ thru n L) fs
-termination_by structural f => f
-end
-
-def selfOK (S : StrFns) (L : List Mapper) (fs : List Fld) : Bool :=
-  mkeysNodup (shapeFields S L fs) && selfFs S L fs
+/-- re-aggregation under the handed-down dict `shapeFields L full` turns the entry field `n` has in the
+    class's own aggregate (list `B`) into the entry it has under `L` -/
+def fldStepOK (S : StrFns) (B L : List Mapper) (full : List Fld) (n : String) : Bool :=
+  mvFlatEq (stepKey S (.dict (shapeFields S L full)) n (keyOf S B n)) (keyOf S L n)
 
 mutual
-/-- levels reached by re-aggregation (depth >= 1 below the top class): nested entries are tracked and
-    never collide, and every class nested below either has no own mappers, or (it may have any plain own
-    mappers, at any depth below) no enum mapper acts on it from above -/
-def reaggFs (S : StrFns) (L : List Mapper) (full : List Fld) : List Fld → Bool
+/-- a level reached by re-aggregation (depth >= 1 below the top class): the class's base mapper is the
+    shape list of `B` (`[]` for the class itself, its own list for the entries of the classes nested
+    in it), the dict it is handed the shape list of `L`.  Field by field the re-aggregation must land
+    on the entry under `L`; the nested entry of a nested field, keyed `nk B n`, must either be found
+    equal (then it is the field's own entry) or be re-keyed to `nk L n`; and recursively so for the
+    nested class, whose entries are the shape lists of `own ++ thru n B` and `own ++ thru n L`.
+    Holds when a class two levels down has no own mapper, and also when it has one that the mappers
+    reaching it from above leave alone (e.g. `TO_CAMELCASE` on every class of the tree). -/
+def reaggFs (S : StrFns) (B L : List Mapper) (full : List Fld) : List Fld → Bool
   | [] => true
-  | f :: fs => reaggF S L full f && reaggFs S L full fs
+  | f :: fs => reaggF S B L full f && reaggFs S B L full fs
 termination_by structural fs => fs
-def reaggF (S : StrFns) (L : List Mapper) (full : List Fld) : Fld → Bool
-  | .scalar _ _ => true
+def reaggF (S : StrFns) (B L : List Mapper) (full : List Fld) : Fld → Bool
+  | .scalar n _ => fldStepOK S B L full n
   | .nested n _ _ ci fs =>
-    trackOK S L n && noCross S L full n && !fs.isEmpty
-      && ((ci.desL.isEmpty && ci.ser.isEmpty && prefixOK S fs [] (thru n L)
-            && mkeysNodup (shapeFields S (thru n L) fs) && reaggFs S (thru n L) fs fs)
-          || ((thru n L).isEmpty && prefixOK S fs [] ci.desL && selfOK S ci.desL fs))
+    fldStepOK S B L full n
+      && ((lookupR (.nest (nk S B n)) (shapeFields S L full)).isNone || (nk S L n == nk S B n))
+      && (nestName (applyKey S (.dict (shapeFields S L full)) (nk S B n)) == nk S L n)
+      && prefixOK S fs [] (ci.desL ++ thru n B) && prefixOK S fs [] (ci.desL ++ thru n L)
+      && mkeysNodup (shapeFields S (ci.desL ++ thru n L) fs)
+      && reaggFs S (ci.desL ++ thru n B) (ci.desL ++ thru n L) fs fs
 termination_by structural f => f
 end
 
 def reaggOK (S : StrFns) (L : List Mapper) (fs : List Fld) : Bool :=
-  mkeysNodup (shapeFields S L fs) && reaggFs S L fs fs
+  mkeysNodup (shapeFields S L fs) && reaggFs S [] L fs fs
 
 def camelTail (camel : Bool) : List Mapper := if camel then [.camel] else []
 
